@@ -301,8 +301,8 @@ class Printer:
         t = a.type
         tstart = line.index(tt, (self.indent * depth + 8) if as_typedef else line.index("=")) + 1
         el = t.elem if isinstance(t, Arr) else t
-        if isinstance(el, Ref) and el.forced_path is None:
-            self.refs.append((ln, tstart, self.path_for(el.target, again=True), el.target))
+        if isinstance(el, Ref):
+            self.refs.append((ln, tstart, el.forced_path if el.forced_path is not None else self.path_for(el.target, again=True), el.target))
         if isinstance(t, Arr) and t.cap_const is not None and t.cap_text is None:
             txt = self.path_for(t.cap_const, again=True)
             self.refs.append((ln, line.index(txt, line.index("[", tstart)) + 1, txt, t.cap_const))
@@ -335,8 +335,9 @@ class Printer:
         t = fl.type
         base_col = self.indent * depth + 1
         el = t.elem if isinstance(t, Arr) else t
-        if isinstance(el, Ref) and el.forced_path is None:
-            self.refs.append((ln, base_col, self.path_for(el.target, again=True), el.target))
+        if isinstance(el, Ref):
+            # a forced spelling (catalogue entries that write a particular path) is a reference like any other
+            self.refs.append((ln, base_col, el.forced_path if el.forced_path is not None else self.path_for(el.target, again=True), el.target))
         if isinstance(t, Arr) and t.cap_const is not None and t.cap_text is None:
             txt = self.path_for(t.cap_const, again=True)
             line = self.lines[ln - 1]
